@@ -802,13 +802,23 @@ theorem fd_paths_balanced (p : FdPaths.Path) (hp : p ∈ Gen.FdPaths.paths) (he 
 example : pathOk ("get_file_for_stream", "return", "((void*)0)", [("create", "fd_dup", "", "dup($1->handle)")]) = false := by decide
 example : pathOk ("f", "return", "", [("create", "fd", "", "k"), ("close", "fd", "", "k"), ("close", "fd", "", "k")]) = false := by decide
 example : pathOk ("f", "return", "", [("create", "fd", "", "k"), ("create", "fd", "", "k"), ("close", "fd", "", "k")]) = false := by decide
-example : Gen.FdPaths.paths.length ≥ 80 := by decide
+example : Gen.FdPaths.paths.length ≥ 120 := by decide +kernel
 /-- net/listen: a second socket() into a local that still holds the first one (the `close` before `continue` lost), the listen-failure
     path without its close, and get_stdio_for_handle returning NULL while it owns the pipe end are rejected -/
 example : pathOk ("cfun_net_listen", "raise", "janet_panic",
     [("create", "sfd", "", "socket($2->ai_family)"), ("create", "sfd", "", "socket($2->ai_family)"), ("close", "sfd", "", "close($1)#3")]) = false := by decide
 example : pathOk ("cfun_net_listen", "raise", "janet_panicf", [("create", "sfd", "", "socket(1)")]) = false := by decide
 example : pathOk ("get_stdio_for_handle", "return", "((void*)0)", [("create", "handle", "", "entry:handle")]) = false := by decide
+/-- os_execute_impl (one stdio slot at a time): a failed posix_spawn that does not close the parent's end of the pipe it made, and a close
+    of that end under the wrong owner flag (executed in a slot that made no pipe), are rejected; the spawn-failure path of the tree is accepted -/
+example : pathOk ("os_execute_impl", "raise", "janet_panicf",
+    [("create", "new_in", "", "make_pipes(&$1)"), ("create", "pipe_in", "", "make_pipes(&$1)"), ("close", "pipe_in", "", "close($1)")]) = false := by decide
+example : pathOk ("os_execute_impl", "raise", "janet_panicf", [("close", "new_in", "", "close($7)")]) = false := by decide
+example : pathOk ("os_execute_impl", "raise", "janet_panicf",
+    [("create", "new_in", "", "make_pipes(&$1)"), ("create", "pipe_in", "", "make_pipes(&$1)"), ("close", "pipe_in", "", "close($1)"),
+     ("close", "new_in", "", "close($7)")]) = true := by decide
+example : Gen.FdPaths.functions.contains "os_execute_impl" = true ∧ (Gen.FdPaths.paths.filter (fun p => p.1 == "os_execute_impl")).length ≥ 40 := by
+  decide +kernel
 
 end FdPathsSec
 
